@@ -31,7 +31,7 @@ def gen_list(case):
     for e in case['ens']:
         nrep = rng.choice([1, 2, 3])
         for r in range(nrep):
-            layout['%s|r%d' % (e, r + 1)] = list(gen_idl(rng, rng.randint(10, 30), rng.choice(['contig', 'strided', 'irregular'])))
+            layout['%s|r%d' % (e, r + 1)] = list(gen_idl(rng, rng.randint(10, 30), rng.choice(['contig', 'strided', 'irregular', 'deceptive', 'deceptive'])))
     base = {n: nprng.normal(size=len(il)) for n, il in layout.items()}
     grid = {}
     cov = None
@@ -133,7 +133,7 @@ def check_case(ctx, case):
             i, j = np.unravel_index(np.argmax(np.abs(cp - cov[np.ix_(perm, perm)])), cp.shape)
             probs.append(('violation', 'not-permutation-equivariant', 'order %r: entry (%d,%d) %r vs %r' % (perm, i, j, cp[i, j], cov[perm[i], perm[j]])))
         # Pearson on common configurations for single chains
-        if case['mode'] in ('single', 'strides'):
+        if True:
             for i, j in itertools.combinations(range(n), 2):
                 a, b = obs[i], obs[j]
                 if len(a.names) == 1 and a.names == b.names and not a.covobs and not b.covobs:
